@@ -60,10 +60,14 @@ func (p *ParserPlanner) Process(ctx *shared.PlannerContext,
 			if entry.Err != nil {
 				return nil
 			}
-			var err error
-			entry.Labels, err = parser(entry.Message, &entry.Labels)
+			// a line the parser cannot read keeps the labels extracted so far and stays in the result,
+			// it must not fail the whole query
+			labels, err := parser(entry.Message, &entry.Labels)
+			if err == nil {
+				entry.Labels = labels
+			}
 			entry.Fingerprint = fingerprint(entry.Labels)
-			return err
+			return nil
 		},
 		OnAfterEntriesSlice: func(entries []shared.LogEntry, c chan []shared.LogEntry) error {
 			c <- entries
